@@ -549,7 +549,7 @@ def main():
 
     # ------------------------------------------------------------ A. random machines: correspondence + oracle
     cases, lines, answers = [], [], []
-    n_rand = 20000 if big else 4000
+    n_rand = 20000 if big else 6000
     for i in range(n_rand):
         d = gen_machine(rng)
         ans = run_case(res, d)
@@ -580,7 +580,7 @@ def main():
         sched_lines, sched_cases, sched_answers = [], [], []
         todo = [(CONN, "select", "disconnect", RACE_SCHEDULE, True)]
         pairs = [("select", "disconnect"), ("select", "select"), ("select", "timeoutT7"), ("disconnect", "timeoutT7"), ("connect", "select")]
-        n_sched = 900 if big else 110
+        n_sched = 900 if big else 200
         for _ in range(n_sched):
             if rng.chance(2, 3):
                 d, (x, y) = CONN, rng.choice(pairs)
@@ -591,8 +591,8 @@ def main():
                 x, y = rng.choice(nmz), rng.choice(nmz)
             ones = rng.shuffle([0] * 9 + [1] * 9)
             todo.append((d, x, y, ones, False))
-        if big:
-            # exhaustive: every interleaving of the first five lines of each call (check / leave / readOld / setCur are where it matters)
+        if True:
+            # exhaustive (both tiers): every interleaving of the first five lines of each call (check / leave / readOld / setCur are where it matters)
             import itertools
             for pos in itertools.combinations(range(10), 5):
                 sch = [0 if i in pos else 1 for i in range(10)] + [0] * 4 + [1] * 4
